@@ -96,8 +96,13 @@ def unsupported_sites(chk: Check, repo: Repo) -> None:
     chk.floor("UnsupportedAPCIService raise sites", len(sites), 1)
     for f, n in sites:
         if f.qualname == "APCI.from_knx":
-            # must be the fall-through after the dispatch try (not inside the try body's arms)
-            ok = n in f.node.body
+            # the fall-through of the dispatch: reached under no positive selector test (not inside an arm), outside the try
+            cfg_d = CFG(f.node)
+            mf_d = cfg_d.must_facts()
+            sel_d = selector_vars(repo, f)
+            nodes_d = [x for x in cfg_d.nodes if x.ast is n]
+            in_arm = any(v and isinstance(ast.parse(t, mode="eval").body, ast.Compare) and ast.unparse(ast.parse(t, mode="eval").body.left) in sel_d and isinstance(ast.parse(t, mode="eval").body.ops[0], ast.Eq) for x in nodes_d for t, v in mf_d[x.id])
+            ok = bool(nodes_d) and not in_arm and all(not x.tries for x in nodes_d)
             why = "dispatcher fall-through (no arm matched)"
         else:
             tk = repo.lookup_method(f.cls, "to_knx") if f.cls is not None else None
